@@ -159,6 +159,9 @@ func (e *Enc) loadLv(st *State, lv lvalue) Val {
 		return e.loadField(st, lv.stT, lv.fidx, lv.obj)
 	case "elem":
 		return e.elemAt(st, lv.elemT, lv.obj, lv.idx)
+	case "elemfield":
+		full := e.elemAt(st, lv.elemT, lv.obj, lv.idx)
+		return Val{lv.typ, full.C[lv.lo:lv.hi]}
 	case "ptr":
 		return e.loadPtr(st, lv.typ, lv.obj)
 	case "global":
@@ -678,7 +681,15 @@ func (bs *blockState) fieldAddr(x *ssa.FieldAddr) {
 			return
 		case "elem":
 			// field of a struct slice element: component sub-range of the element heap
-			unsupp("address of field of slice element (use whole-element load/store)")
+			bst := blv.elemT.Underlying().(*types.Struct)
+			lo, hi := fieldRange(bst, x.Field)
+			e.addrs[x] = lvalue{kind: "elemfield", obj: blv.obj, idx: blv.idx, elemT: blv.elemT, lo: lo, hi: hi, typ: st.Field(x.Field).Type()}
+			return
+		case "elemfield":
+			bst := blv.typ.Underlying().(*types.Struct)
+			lo, hi := fieldRange(bst, x.Field)
+			e.addrs[x] = lvalue{kind: "elemfield", obj: blv.obj, idx: blv.idx, elemT: blv.elemT, lo: blv.lo + lo, hi: blv.lo + hi, typ: st.Field(x.Field).Type()}
+			return
 		case "ptr":
 			if _, nested := st.Field(x.Field).Type().Underlying().(*types.Struct); nested {
 				e.addrs[x] = lvalue{kind: "ptr", obj: subRef(blv.obj, x.Field), typ: st.Field(x.Field).Type()}
@@ -780,7 +791,6 @@ func (bs *blockState) atomicCall(x *ssa.Call, f *ssa.Function) {
 		unsupp("sync/atomic.%s", name)
 	}
 }
-
 
 // storeReachableAfter finds a store to the cell allocated by a that can execute after instruction from
 // without the cell being allocated anew in between.
